@@ -33,6 +33,7 @@ CONSTANTS NW,          \* threads_max
           Spurious,    \* BOOLEAN: condition waits may return without a signal
           MemT,        \* memlimit_threading (as given to lzma_stream_decoder_mt; the coder clamps it to memlimit_stop)
           MemStop,     \* memlimit_stop as given to lzma_stream_decoder_mt
+          Tell,        \* "none", or the code the LZMA_TELL_* flags produce for this file's Check type after each Stream Header: "NO_CHECK" | "UNSUPPORTED_CHECK" | "GET_CHECK"
           MaxRaise,    \* how often the application may answer LZMA_MEMLIMIT_ERROR with lzma_memlimit_set()
           OutOvh,      \* sizeof(lzma_outbuf): memory of an output buffer = uncompressed size + OutOvh
           Gives,       \* set of input amounts the application may add per call (model checking)
@@ -125,7 +126,8 @@ MInit == [pc |-> "out", act |-> "RUN", inAvail |-> 0, given |-> 0, outSpace |-> 
           orderOk |-> TRUE, copyBad |-> FALSE, space0 |-> 0, reinits |-> 0, copy |-> 0,
           memStop |-> MemStop,               \* coder->memlimit_stop
           memT |-> Min(MemT, MemStop),       \* coder->memlimit_threading (never above memlimit_stop)
-          raises |-> 0]
+          raises |-> 0,
+          tells |-> 0]                       \* ghost: LZMA_*_CHECK notifications returned so far
 CInit == [free |-> <<>>, threadErr |-> "OK", outq |-> <<>>, readPos |-> 0, memInUse |-> 0, sigM |-> FALSE]
 TInit == [state |-> "IDLE", inFilled |-> 0, partial |-> "DIS", sig |-> FALSE, pc |-> "none", blk |-> 0,
           inPos |-> 0, outPos |-> 0, snapIn |-> 0, snapPartial |-> "DIS", ret |-> "OK", inBuf |-> "none"]
@@ -154,15 +156,18 @@ Call(a, g, s) ==
                       !.outWasFilled = FALSE, !.hasBlocked = FALSE, !.pc = "run"]
     /\ UNCHANGED <<c, t>>
 
+\* codes that are "something else than LZMA_OK, but not a fatal error": coding may be continued (common.c)
+Notifications == {"MEMLIMIT_ERROR", "NO_CHECK", "UNSUPPORTED_CHECK", "GET_CHECK"}
+
 \* return r from stream_decode_mt to lzma_code, which post-processes it (common.c); mm = m being built
 Ret(mm, r) ==
     LET r1 == IF r = "OK" /\ ~mm.progress /\ mm.allowBuf THEN "BUF_ERROR"
               ELSE IF r = "TIMED_OUT" THEN "OK" ELSE r
     IN [mm EXCEPT !.lastRet = r1,
                   !.allowBuf = IF r = "OK" THEN ~mm.progress
-                               ELSE IF r \in {"TIMED_OUT", "STREAM_END", "MEMLIMIT_ERROR"} THEN FALSE ELSE mm.allowBuf,
+                               ELSE IF r \in {"TIMED_OUT", "STREAM_END"} \cup Notifications THEN FALSE ELSE mm.allowBuf,
                   \* LZMA_MEMLIMIT_ERROR is not fatal: the application may raise the limit and call again
-                  !.ended = (r1 \notin {"OK", "BUF_ERROR", "MEMLIMIT_ERROR"}),
+                  !.ended = (r1 \notin {"OK", "BUF_ERROR"} \cup Notifications),
                   !.pc = "out"]
 
 PendingCode == IF m.pendingErr = "HDRERR" THEN "OPTIONS_ERROR" ELSE "PROG_ERROR"
@@ -308,6 +313,9 @@ RunOther ==
               LET n == Min(m.inAvail, HdrSz - m.pos)
                   m1 == [m EXCEPT !.inAvail = m.inAvail - n, !.progress = (m.progress \/ n > 0)]
               IN IF m.pos + n < HdrSz THEN Ret([m1 EXCEPT !.pos = m.pos + n], "OK")
+                 \* the Check type is known now: tell the application if it asked (once per Stream; decoding continues
+                 \* from the Block Header at the next call)
+                 ELSE IF Tell # "none" THEN Ret([m1 EXCEPT !.pos = 0, !.seq = "BLKHDR", !.tells = @ + 1], Tell)
                  ELSE [m1 EXCEPT !.pos = 0, !.seq = "BLKHDR"]
          [] m.seq = "BLKHDR" ->
               IF m.inAvail = 0 THEN
